@@ -90,3 +90,45 @@ def caught_exceptions_do_not_escape(rep):
         if any(isinstance(n, ast.ExceptHandler) for n in ast.walk(fn)):
             rep.add_checked('engine.%s.frame.caught_exception_does_not_escape' % q, not probs, '; '.join(probs), 'ast', function='engine.' + q,
                             witness=probs or None)
+
+
+# special methods that change what the operators and statements interpreted natively by the executor mean
+# (`==`, `is`, `in`, truth value, len(), attribute access, indexing, calling, iteration, object creation)
+_OVERLOADS = ('__eq__', '__ne__', '__hash__', '__bool__', '__len__', '__contains__', '__getattr__', '__getattribute__',
+              '__setattr__', '__delattr__', '__lt__', '__le__', '__gt__', '__ge__', '__getitem__', '__setitem__', '__delitem__',
+              '__call__', '__new__', '__init_subclass__', '__class_getitem__', '__iter__', '__next__', '__del__', '__slots__',
+              '__set_name__', '__get__', '__set__', '__instancecheck__', '__subclasscheck__')
+_ITER_OK = {'engine': {'YPSuccess': ('__iter__', '__next__'), 'YPFail': ('__iter__', '__next__')}}
+
+
+def no_operator_overloading(rep, modname='engine'):
+    """A-PY-CLASSES made an obligation: the classes of the module define none of the special methods that would change the meaning of
+    the operators the verification conditions interpret natively (e.g. `clause in current` and `x == y` on engine objects are
+    identity tests only as long as no class defines __eq__/__hash__/__contains__), have no decorator and no metaclass."""
+    mod, _ = _functions(modname)
+    for cname, cls in mod.classes.items():
+        allowed = _ITER_OK.get(modname, {}).get(cname, ())
+        bad = []
+        for n in cls.body:
+            names = []
+            if isinstance(n, (ast.FunctionDef, ast.AsyncFunctionDef)):
+                names = [n.name]
+            elif isinstance(n, ast.Assign):
+                names = [t.id for t in n.targets if isinstance(t, ast.Name)]
+            elif isinstance(n, ast.AnnAssign) and isinstance(n.target, ast.Name):
+                names = [n.target.id]
+            for nm in names:
+                if nm in _OVERLOADS and nm not in allowed:
+                    bad.append('line %d: %s.%s' % (n.lineno, cname, nm))
+        if cls.decorator_list:
+            bad.append('line %d: decorator on class %s' % (cls.lineno, cname))
+        if cls.keywords:
+            bad.append('line %d: class keyword (metaclass) on %s' % (cls.lineno, cname))
+        rep.add_checked('%s.%s.semantics.no_operator_overloading' % (modname, cname), not bad, '; '.join(bad), 'ast',
+                        function='%s.%s' % (modname, cname), witness=None if not bad else dict(sites=bad))
+    # functions of the module are what their def says: no decorator replaces them (functools caches, wrappers)
+    for q, fn in mod.functions.items():
+        decs = [ast.unparse(d) for d in fn.decorator_list if ast.unparse(d) not in ('staticmethod', 'classmethod', 'property')]
+        rep.add_checked('%s.%s.semantics.no_decorator' % (modname, q), not decs,
+                        'decorated with ' + ', '.join(decs) if decs else '', 'ast', function='%s.%s' % (modname, q),
+                        witness=None if not decs else dict(decorators=decs, line=fn.lineno))
